@@ -115,6 +115,12 @@ pub struct RunCfg {
     /// (the run is interrupted inside the very poll in which the function was started).
     #[serde(default, skip_serializing_if = "Vec::is_empty")]
     pub sync_sig: Vec<usize>,
+    /// The run does not own its interruptibility state: all runs of the history with this flag share ONE
+    /// `InterruptibilityState` (FinishCurrent) and each gets `state.reborrow()`, as the `interruptible` crate intends for
+    /// several streams interrupted by one signal. A signal sent during an earlier sharing run is therefore pending
+    /// when a later one begins. Sequential histories only.
+    #[serde(default, skip_serializing_if = "std::ops::Not::not")]
+    pub share: bool,
 }
 
 fn fwd() -> String {
